@@ -89,6 +89,10 @@ func (s stmt) text() string {
 		return "pragma unknown-command = disallow"
 	case "ext":
 		return extName
+	case "extreg":
+		return "math:floor 1" // math is registered on the Evaler (elv.New) but not imported
+	case "extunreg":
+		return "nomod:fn foo"
 	case "bad":
 		if t, ok := defectText[s.D]; ok {
 			return t
